@@ -73,10 +73,12 @@ theorem isSome_match {α β : Type} (o : Option α) (f : α → β) :
 
 section
 variable (cfg : Cfg) (O : Oracles)
-  (hleak : cfg.leaksImportant = false) (hbound : cfg.addlItemsBound = false)
+  (hbound : cfg.addlItemsBound = false)
   (hO : cfg.floatTolerance = true → OExact O)
   (rI : String → V) (rS : String → JVal → Bool) (known : String → Bool)
   (hr : ∀ name, known name = true → VAgree (AdmP cfg) (rI name) (rS name))
+  /- with the IMPORTANT!-message switch open: what a reference resolves to carries no such message on a quiet instance -/
+  (hleak : cfg.leaksImportant = true → ∀ name, NoImp.LV (rI name))
 include hleak hbound hO hr
 
 /-- children of a node as the model / the specification build them -/
@@ -153,7 +155,34 @@ theorem node_agree (b : SBase) (itemsS : Option Schema) (itemsT : List Schema) (
     obtain ⟨⟨⟨⟨⟨⟨n1, n2⟩, n3⟩, n4⟩, n5⟩, n6⟩, n7⟩ := hn
     apply node_verdict cfg O b (defaultsOf props) _ _ hk ?wf path v hv
     exact {
-      leak := hleak
+      keep := by
+        intro path' v' hv' f hf
+        cases hc : cfg.leaksImportant with
+        | false => exact keepRelevant_off cfg hc _
+        | true =>
+          have hq := adm_quiet cfg hc v' hv'
+          have hlv : NoImp.LV f := by
+            rcases hf with hf | hf | hf
+            · exact NoImp.validateL_loc cfg O rI (hleak hc) anyOf f hf
+            · exact NoImp.validateL_loc cfg O rI (hleak hc) oneOf f hf
+            · exact NoImp.validateL_loc cfg O rI (hleak hc) allOf f hf
+          have hni := hlv path' v' hq
+          unfold keepRelevant
+          simp only [hc, ↓reduceIte]
+          have e1 : (f path' v').errors.filter isImportant = [] := by
+            rw [List.filter_eq_nil_iff]
+            intro m hm
+            have := hni.1 m hm
+            simp [isImportant, NoImp.Under] at this ⊢
+            exact this
+          have e2 : (f path' v').warnings.filter isImportant = [] := by
+            rw [List.filter_eq_nil_iff]
+            intro m hm
+            have := hni.2 m hm
+            simp [isImportant, NoImp.Under] at this ⊢
+            exact this
+          rw [e1, e2]
+          rfl
       bound := hbound
       float := hO
       fmtTypes := by
@@ -201,7 +230,7 @@ theorem validate_agree (s : Schema) (hs : wf cfg known s = true) :
       simp only [href, bne_self_eq_false, Bool.false_and, Bool.false_or, beq_self_eq_true, Bool.true_and,
         Bool.and_eq_true] at hs'
       obtain ⟨⟨⟨⟨⟨⟨⟨⟨⟨⟨⟨hn, h1⟩, h2⟩, h3⟩, h4⟩, h5⟩, h6⟩, h7⟩, h8⟩, h9⟩, h10⟩, h11⟩ := hs'
-      apply node_agree cfg O hleak hbound hO rI rS known hr b _ _ _ _ _ _ _ _ _ _ _ (fun _ => hn)
+      apply node_agree cfg O hbound hO rI rS known hr hleak b _ _ _ _ _ _ _ _ _ _ _ (fun _ => hn)
         (fun h => absurd href h)
       exact {
         itemsS := by
@@ -265,7 +294,7 @@ def DefsWf (cfg : Cfg) (defs : String → Option Schema) : Prop :=
   ∀ name t, defs name = some t → wf cfg (fun n => (defs n).isSome) t = true
 
 theorem validateF_agree (cfg : Cfg) (O : Oracles)
-    (hleak : cfg.leaksImportant = false) (hbound : cfg.addlItemsBound = false)
+    (hbound : cfg.addlItemsBound = false)
     (hO : cfg.floatTolerance = true → OExact O)
     (defs : String → Option Schema) (hdefs : DefsWf cfg defs) (n : Nat) :
     ∀ s, wf cfg (fun n => (defs n).isSome) s = true →
@@ -273,14 +302,18 @@ theorem validateF_agree (cfg : Cfg) (O : Oracles)
   induction n with
   | zero =>
     intro s hs
-    exact validate_agree cfg O hleak hbound hO _ _ (fun n => (defs n).isSome)
-      (fun _ _ _ _ _ => ⟨rfl, rfl⟩) s hs
+    exact validate_agree cfg O hbound hO _ _ (fun n => (defs n).isSome)
+      (fun _ _ _ _ _ => ⟨rfl, rfl⟩) (fun _ _ p _ _ => NoImp.loc_sErr p eFuel rfl) s hs
   | succ n ih =>
     intro s hs
-    apply validate_agree cfg O hleak hbound hO _ _ (fun n => (defs n).isSome) ?_ s hs
-    intro name hk p x hx
-    cases hd : defs name with
-    | none => simp [hd] at hk
-    | some t => simpa [hd] using ih t (hdefs name t hd) p x hx
+    apply validate_agree cfg O hbound hO _ _ (fun n => (defs n).isSome) ?_ ?_ s hs
+    · intro name hk p x hx
+      cases hd : defs name with
+      | none => simp [hd] at hk
+      | some t => simpa [hd] using ih t (hdefs name t hd) p x hx
+    · intro _ name p x hx
+      cases hd : defs name with
+      | none => simp only []; exact ⟨(by intro m hm; cases hm), (by intro m hm; cases hm)⟩
+      | some t => simp only []; exact NoImp.validateF_loc cfg O defs n t p x hx
 
 end VM
